@@ -159,6 +159,9 @@ func (ck *CheckCo) Read(t *CkTran, table string, index int, from, to string) boo
 	if t.Failed() {
 		return false
 	}
+	if verif.On {
+		verif.Event("CkSend", "t", t.start, "m", "read")
+	}
 	ck.pq.Put(mediumPriority, t.start, &ckRead{t: t, table: table, index: index, from: from, to: to})
 	return true
 }
@@ -166,6 +169,9 @@ func (ck *CheckCo) Read(t *CkTran, table string, index int, from, to string) boo
 func (ck *CheckCo) Output(t *CkTran, table string, keys []string) bool {
 	if t.Failed() {
 		return false
+	}
+	if verif.On {
+		verif.Event("CkSend", "t", t.start, "m", "output")
 	}
 	ck.pq.Put(mediumPriority, t.start, &ckOutput{t: t, table: table, keys: keys})
 	return true
@@ -175,6 +181,9 @@ func (ck *CheckCo) Delete(t *CkTran, table string, off uint64, keys []string) bo
 	if t.Failed() {
 		return false
 	}
+	if verif.On {
+		verif.Event("CkSend", "t", t.start, "m", "delete")
+	}
 	ck.pq.Put(mediumPriority, t.start, &ckDelete{t: t, table: table, off: off, keys: keys})
 	return true
 }
@@ -182,6 +191,9 @@ func (ck *CheckCo) Delete(t *CkTran, table string, off uint64, keys []string) bo
 func (ck *CheckCo) Update(t *CkTran, table string, oldoff uint64, oldkeys, newkeys []string) bool {
 	if t.Failed() {
 		return false
+	}
+	if verif.On {
+		verif.Event("CkSend", "t", t.start, "m", "update")
 	}
 	ck.pq.Put(mediumPriority, t.start, &ckUpdate{t: t, table: table,
 		oldoff: oldoff, oldkeys: oldkeys, newkeys: newkeys})
@@ -192,6 +204,9 @@ func (ck *CheckCo) ReadCount(t *CkTran) int {
 	if t.Failed() {
 		return -1
 	}
+	if verif.On {
+		verif.Event("CkSend", "t", t.start, "m", "counts")
+	}
 	ret := make(chan int)
 	ck.pq.Put(lowPriority, t.start, &ckCounts{t: t, ret: ret})
 	return <-ret
@@ -201,12 +216,18 @@ func (ck *CheckCo) Commit(ut *UpdateTran) bool {
 	if ut.ct.Failed() {
 		return false
 	}
+	if verif.On {
+		verif.Event("CkSend", "t", ut.ct.start, "m", "commit")
+	}
 	ret := make(chan bool, 1)
 	ck.pq.Put(highPriority, ut.ct.start, &ckCommit{t: ut, ret: ret})
 	return <-ret
 }
 
 func (ck *CheckCo) Abort(t *CkTran, reason string) bool {
+	if verif.On {
+		verif.Event("CkSend", "t", t.start, "m", "abort")
+	}
 	ck.pq.Put(highPriority, t.start, &ckAbort{t: t, reason: reason})
 	return true
 }
@@ -308,6 +329,11 @@ func checker(ck *Check, pq *queue.PriorityQueue, mergeChan chan todo, stopTicker
 		}
 		if verif.On {
 			verif.Gate("ck.dispatch", msg)
+		}
+		if verif.On {
+			if t, m := verifMsgInfo(msg); m != "" {
+				verif.Event("CkRecv", "t", t, "m", m)
+			}
 		}
 		ck.dispatch(msg, mergeChan)
 	}
